@@ -1,6 +1,6 @@
 #!/bin/bash
 # usage: tools/run_on_tree.sh <root of a repo copy>   - runs every property's rules on another tree, prints new violations
-for p in 01 02 03 04 05 06 07 08 09 10 11 12 13 14 15 16 17; do (HSA_REPO=$1 /venv/bin/python -B -c "
+for p in 01 02 03 04 05 06 07 08 09 10 11 12 13 14 15 16 17 19; do (HSA_REPO=$1 /venv/bin/python -B -c "
 import sys
 sys.path.insert(0,'/verif')
 from hsa.cli import load_prop, run_rules
